@@ -5,7 +5,9 @@ program TLC computes the unique behaviour (log / error events) and the ghost fea
 program is printed as TypeScript and executed on the real interpreter (host-native logging); the recorded trace must be
 that behaviour (degenerate trace validation, DESIGN.md 1.1).  node, when present, must agree with the spec (self-validation
 of the spec; disagreements exclude the program, they never decide).
-Inputs: (a) exhaustive operator family: every binary/logical operator x operand pool^2; (b) seeded random programs."""
+Inputs: (a) exhaustive operator family: every binary/logical operator x operand pool^2; (a') logical assignment family:
+every ||= &&= ??= x target kind (variable, property, element, absent property) x current value, with a counted right-hand side;
+(b) seeded random programs."""
 import json, os, random, time
 import vlib, minijs as M, minijs_gen as G, mjcheck
 from vlib import log
@@ -55,6 +57,42 @@ def operator_family(first_id, per_prog=48):
     return progs, len(cases)
 
 
+def assignment_family(first_id, per_prog=12):
+    """every logical assignment operator x target kind (variable, object property, array element) x current value:
+    the result, the stored value and how often the right-hand side ran are all logged"""
+    progs = []; ncases = 0
+    b = G.B(); xs = []
+    cs = G.cs
+    def flush():
+        nonlocal b, xs
+        if xs:
+            root = b.add(ty="program", xs=xs)
+            progs.append(dict(id=first_id + len(progs), root=root, nodes=b.nodes, resp=[], family="lassign"))
+        b = G.B(); xs = []
+    def bump(k):      # (n = (n + k)): visible side effect of the right-hand side
+        return b.add(ty="assign", name="n", a=b.add(ty="bin", op="+", a=b.add(ty="var", name="n"), b=b.add(ty="num", v=k)))
+    ncur = len(operand_pool(b))
+    for op in ("||=", "&&=", "??="):
+        for i in range(ncur):
+            cur = lambda: operand_pool(b)[i]()
+            blk = [b.add(ty="decl", kind="let", name="n", a=b.add(ty="num", v=0)),
+                   b.add(ty="decl", kind="let", name="x", a=cur()),
+                   b.add(ty="decl", kind="const", name="o", a=b.add(ty="objlit", keys=[cs("a")], vals=[cur()])),
+                   b.add(ty="decl", kind="const", name="r", a=b.add(ty="arrlit", xs=[cur()])),
+                   b.add(ty="log", a=b.add(ty="lassignv", op=op, name="x", a=bump(1))),
+                   b.add(ty="log", a=b.add(ty="var", name="x")),
+                   b.add(ty="log", a=b.add(ty="lassignm", op=op, a=b.add(ty="var", name="o"), key=cs("a"), c=bump(10))),
+                   b.add(ty="log", a=b.add(ty="var", name="o")),
+                   b.add(ty="log", a=b.add(ty="lassignm", op=op, a=b.add(ty="var", name="r"), key=cs("0"), c=bump(100))),
+                   b.add(ty="log", a=b.add(ty="var", name="r")),
+                   b.add(ty="log", a=b.add(ty="lassignm", op=op, a=b.add(ty="var", name="o"), key=cs("zz"), c=bump(1000))),
+                   b.add(ty="log", a=b.add(ty="var", name="n"))]
+            xs.append(b.add(ty="block", xs=blk)); ncases += 4
+            if len(xs) >= per_prog: flush()
+    flush()
+    return progs, ncases
+
+
 def main(tier):
     c = vlib.Check("C01")
     exe = vlib.build_harness()
@@ -63,7 +101,8 @@ def main(tier):
     J.announce_dead_findings()
     nrand = 2500 if quick else 40000
     fam, ncases = operator_family(1000000)
-    batches = [("operator family", fam)]
+    afam, nacases = assignment_family(2000000)
+    batches = [("operator family", fam), ("logical assignment family", afam)]
     CH = 5000
     for k in range(0, nrand, CH):
         batches.append(("random programs %d" % (k // CH), mjcheck.gen_programs(c.seed * 1000 + k, min(CH, nrand - k), objects=True, gens=True, first_id=k)))
@@ -89,6 +128,7 @@ def main(tier):
     c.cov["distinct_nontrivial"] = nontrivial
     c.cov["programs"] = total
     c.cov["operator_cases"] = ncases
+    c.cov["logical_assignment_cases"] = nacases
     c.cov["judging"] = dict(J.stats)
     c.cov["known_finding_features"] = dict(J.known_counts)
     c.cov["reference_engine"] = "node" if M.NODE else "absent (spec self-validation skipped)"
